@@ -1,10 +1,27 @@
 #!/usr/bin/env python3
-import json, sys
+"""tools/mkprompt.py <PID> <n> [worktree] [first_k]  -- prompt for a bug-seeding sub-agent (property text only, nothing of /verif's
+machinery).  With first_k > 1 the one-line descriptions of the changes earlier seeders produced are listed as areas to avoid."""
+import glob, json, os, re, sys
 pid, n = sys.argv[1], sys.argv[2]
 wt = sys.argv[3] if len(sys.argv) > 3 else "/tmp/wt/" + pid
+k0 = int(sys.argv[4]) if len(sys.argv) > 4 else 1
 for line in open("/verif/properties.jsonl"):
     p = json.loads(line)
     if p["id"] == pid:
-        t = open("/tmp/wt/prompt_template.txt").read()
-        print(t.replace("{WT}", wt).replace("{PID}", pid).replace("{TITLE}", p["title"])
-               .replace("{STATEMENT}", p["statement"]).replace("{QUANT}", p["quantifier"]["text"]).replace("{N}", n))
+        t = open("/verif/tools/seed_prompt_template.txt").read()
+        t = (t.replace("{WT}", wt).replace("{PID}", pid).replace("{TITLE}", p["title"])
+              .replace("{STATEMENT}", p["statement"]).replace("{QUANT}", p["quantifier"]["text"]).replace("{N}", n))
+        if k0 > 1:
+            prev = []
+            for d in sorted(glob.glob("/verif/seeded/%s-*" % pid)):
+                f = os.path.join(d, "notes.md")
+                if os.path.exists(f):
+                    first = next((l.strip("# \n") for l in open(f) if l.strip()), "")
+                    prev.append("  - " + re.sub(r"^(Mutation|Mutant|%s mutant)\s*\d+\s*[-—:]*\s*" % pid, "", first)[:200])
+            t = t.replace("For each change k = 1..%s" % n, "For each change k = %d..%d" % (k0, k0 + int(n) - 1))
+            t += ("\n\nThis is a later round. Earlier seeders already produced the following changes for this property; yours must be in "
+                  "DIFFERENT functions / mechanisms / code paths (search the whole library for other places that implement or "
+                  "support the property: the C extension, less common trait types, copy/pickle paths, rarely used API entry points, "
+                  "interaction of two features):\n" + "\n".join(prev) + "\nNumber your changes %d..%d (directories MUT/%d ... MUT/%d).\n"
+                  % (k0, k0 + int(n) - 1, k0, k0 + int(n) - 1))
+        print(t)
